@@ -2,6 +2,7 @@
 import numpy as np
 
 KINDS = ["c", "fortran", "strided", "view", "list", "readonly", "column"]
+ARRAY_KINDS = ["c", "fortran", "strided", "view", "column"]  # numpy arrays a caller may legitimately hold (writable)
 
 
 def relayout(a, rng, kind=None):
